@@ -67,8 +67,12 @@ func verifLogCase(w *bufio.Writer, tmp string, caseNo int, kind int, days []vlDa
 		fmt.Fprintf(w, " %s %s %d %d %d %d", gen.Hex(q.name), gen.Hex(q.hash), q.aoff, q.asec, q.boff, q.bsec)
 	}
 	fmt.Fprint(w, " =")
-	f := NewFileIO(root, nil, nil, false)
-	pathOf := func(off int) string { return f.logger.getPath(midnight.Add(time.Duration(off) * 24 * time.Hour).Add(12 * time.Hour)) }
+	// the receiver's log is kept in sync with the disk (main/server.go: !PermitLogBuf); the sender's is not
+	keepInSync := caseNo%3 != 2
+	f := NewFileIO(root, nil, nil, keepInSync)
+	pathOf := func(off int) string {
+		return f.logger.getPath(midnight.Add(time.Duration(off) * 24 * time.Hour).Add(12 * time.Hour))
+	}
 	at0 := func(off, sec int64) time.Time { return midnight.Add(time.Duration(off*86400+sec) * time.Second) }
 	// in every other case the same look-ups (and a replay) are made first, before anything is
 	// written, on the same log object: the sender asks about a file before it logs it
@@ -87,6 +91,11 @@ func verifLogCase(w *bufio.Writer, tmp string, caseNo int, kind int, days []vlDa
 	}
 	for _, d := range days {
 		for i := range d.recs {
+			if d.off == 0 && i > 0 && i == len(d.recs)/2 && caseNo%2 == 0 {
+				// the process restarts in the middle of the day: a new log object on the same directory
+				f.logger.close()
+				f = NewFileIO(root, nil, nil, keepInSync)
+			}
 			if kind == 0 {
 				f.Received(&d.recs[i])
 			} else {
